@@ -24,6 +24,9 @@ CONSTANTS Streams, Callers, MaxFaults, MaxDialFails, MaxResumeNg, WatcherByEpoch
           EpochBeforeResume,   \* TRUE = the stream records the reconnect epoch before it reads c.wireConn and starts the resume exchange (as coded);
                                \* FALSE = after the resume response (a variant that misses an outage decided during the exchange)
           HalfBroken,          \* TRUE = the environment may also break only the write direction of a link (writes fail, reads are still delivered)
+          MaxConflicts,        \* number of resume requests the broker answers with ResumeRequestConflict ("try again")
+          ConflictFatal,       \* FALSE = the resume request is repeated after a conflict (as repaired); TRUE = the repeated attempt fails locally
+                               \* and the stream is closed (downstreams at the pinned commit: the alias was subscribed a second time)
           HandlerCloses,       \* TRUE = the application's Disconnected handler (it runs on the connection's main goroutine) calls Conn.Close itself
           CloseJoinsMain       \* FALSE as coded: Close returns once the Disconnect is out; TRUE = Close additionally waits for the main goroutine
                                \* to end (a variant that deadlocks when a handler closes: the goroutine waits for itself)
@@ -41,12 +44,12 @@ Init0 ==
     main |-> "run",               \* run loop pc
     dialing |-> 0,                \* incarnation being established by reconnect()
     mu |-> "none",                \* holder of wireConnMu
-    st |-> [x \in Streams |-> [pc |-> "watch", w |-> "parked", bound |-> 1, ep |-> 0, resumed |-> 0, closedErr |-> FALSE, resumeOn |-> {}]],
+    st |-> [x \in Streams |-> [pc |-> "watch", w |-> "parked", bound |-> 1, ep |-> 0, resumed |-> 0, closedErr |-> FALSE, resumeOn |-> {}, conflictClosed |-> FALSE]],
     ca |-> [p \in Callers |-> [pc |-> "idle", w |-> "none", res |-> "", sentOn |-> {}, ep |-> 0]],
     cl |-> "idle",                \* Close pc
     closeRet |-> FALSE,
     tokens |-> 0, dials |-> 0, dialsAfterClose |-> 0, disc |-> 0, recon |-> 0, outages |-> 0,
-    faults |-> 0, dialFails |-> 0, resumeNg |-> 0, panic |-> FALSE,
+    faults |-> 0, dialFails |-> 0, resumeNg |-> 0, conflicts |-> 0, panic |-> FALSE,
     sentAfterDisconnect |-> FALSE, disconnectSent |-> {} ]
 
 Init == s = Init0 /\ script = <<>>
@@ -158,6 +161,13 @@ ResumeNg(y) ==
     /\ s.st[y].pc = "resume" /\ s.st[y].bound = s.inc /\ s.alive /\ s.st[y].bound \notin s.wclosed /\ s.resumeNg < MaxResumeNg
     /\ s' = [s EXCEPT !.st[y].pc = "dead", !.st[y].closedErr = TRUE, !.st[y].resumeOn = @ \cup {s.inc}, !.resumeNg = @ + 1]
     /\ Say([a |-> "resumeResp", st |-> y, ok |-> FALSE])
+\* the broker still holds the stream for the old connection: "conflict", the client waits and repeats the request
+ResumeConflict(y) ==
+    /\ s.st[y].pc = "resume" /\ s.st[y].bound = s.inc /\ s.alive /\ s.st[y].bound \notin s.wclosed /\ s.conflicts < MaxConflicts
+    /\ s' = IF ConflictFatal
+            THEN [s EXCEPT !.st[y].pc = "dead", !.st[y].closedErr = TRUE, !.st[y].conflictClosed = TRUE, !.conflicts = @ + 1]
+            ELSE [s EXCEPT !.conflicts = @ + 1, !.st[y].resumeOn = @ \cup {s.inc}]
+    /\ Say([a |-> "resumeResp", st |-> y, ok |-> FALSE, conflict |-> TRUE])
 \* the resume exchange is cut (or the stream bound to an incarnation that is already gone): stream closed with an error
 ResumeCut(y) ==
     /\ s.st[y].pc = "resume" /\ (s.st[y].bound # s.inc \/ ~s.alive \/ s.st[y].bound \in s.wclosed \/ s.wfail = s.inc)
@@ -235,7 +245,7 @@ CloseJoin ==
 Next ==
     \/ HandlerClose \/ CloseJoin
     \/ LinkDown \/ WriteBreaks \/ WireSelfClose \/ RunExitsErr \/ RunExitsClosed \/ RecLock \/ DialOk \/ DialFail \/ RecSwap \/ Notify
-    \/ \E y \in Streams : WatchCheck(y) \/ WaitConnCheck(y) \/ ResumeOk(y) \/ ResumeNg(y) \/ ResumeCut(y)
+    \/ \E y \in Streams : WatchCheck(y) \/ WaitConnCheck(y) \/ ResumeOk(y) \/ ResumeNg(y) \/ ResumeCut(y) \/ ResumeConflict(y)
     \/ \E p \in Callers : ApiCall(p) \/ SendWaitCheck(p) \/ SendCtxDone(p) \/ SendLock(p) \/ SendOk(p) \/ SendFailsClosed(p) \/ SendFailsDead(p) \/ SendRetry(p)
     \/ CloseCall \/ CloseLock \/ CloseDisc
 
@@ -263,6 +273,8 @@ NoDialAfterClose == s.dialsAfterClose = 0
 NoCallerParkedWhenClosed == \A p \in Callers : ~(s.cs = "closed" /\ s.ca[p].pc = "waitConn" /\ s.ca[p].w = "parked")
 \* C10: no goroutine left behind: no stream supervisor parked forever on a Closed connection
 NoSupervisorParkedWhenClosed == \A y \in Streams : ~(s.cs = "closed" /\ s.st[y].pc = "waitConn" /\ s.st[y].w = "parked")
+\* C05: a conflict answer is not a refusal: no stream is closed because of it
+ConflictNeverFatal == \A y \in Streams : ~s.st[y].conflictClosed
 \* C10: a Close issued from the Disconnected handler returns (and so does the user's Close): nobody waits for the goroutine it runs on
 NoSelfJoin == ~(s.main = "hclose" /\ CloseJoinsMain)
 \* C10: silence on the wire after Disconnect
